@@ -28,6 +28,7 @@ type Unit struct {
 	PrefixKey   string   `json:"prefix_key,omitempty"`   // canonical key expected after Class+Prefix ("" = not checked)
 	Repeat      int      `json:"repeat"`                 // every request is sent this many times in a row (repeat family)
 	SkipRepeat  []string `json:"skip_repeat,omitempty"`  // signature stems whose repeat tail is suppressed (already reported as blocking)
+	KnownHeld   []string `json:"known_held,omitempty"`   // lock-held signatures already found in this run: a further occurrence is recorded after 1 s instead of the full watchdog
 	Journal     string   `json:"journal,omitempty"`
 	RealNodes   bool     `json:"real_nodes,omitempty"` // controller side: real replica.Server nodes instead of model nodes (classification runs)
 	Fresh       bool     `json:"fresh,omitempty"`      // a fresh instance for every request of the batch
@@ -82,7 +83,7 @@ type outcome struct {
 	dump    string
 }
 
-const memLimit = 3 << 30
+const memLimit = 1 << 30
 
 func rssBytes() int64 {
 	b, err := os.ReadFile("/proc/self/statm")
@@ -287,20 +288,21 @@ func expected(d Desc, state string, r *Req) expectation {
 }
 
 type runner struct {
-	u        *Unit
-	wd       time.Duration
-	cur      instance
-	baseKey  string
-	baseText string
-	history  []int // indexes of batch requests executed on cur since it was built
-	prefReqs []*Req
-	jf       *os.File
-	results  []*Result
-	batch    []Desc
-	reqs     []*Req
-	trace    bool
-	notes    []string
-	counters map[string]int
+	u         *Unit
+	wd        time.Duration
+	cur       instance
+	baseKey   string
+	baseText  string
+	history   []int // indexes of batch requests executed on cur since it was built
+	prefReqs  []*Req
+	buildViol []kernel.Violation
+	jf        *os.File
+	results   []*Result
+	batch     []Desc
+	reqs      []*Req
+	trace     bool
+	notes     []string
+	counters  map[string]int
 }
 
 func (rn *runner) journal(l journalLine) {
@@ -331,17 +333,9 @@ func (rn *runner) after2(x instance, d Desc, r *Req, what string, light bool) (v
 		rn.counters["foreign_"+v.Oracle]++
 	}
 	// (4) no lock left held
-	deadline := time.Now().Add(rn.wd)
-	for {
-		ok, which := x.tryLock()
-		if ok {
-			break
-		}
-		if time.Now().After(deadline) {
-			add("lock-held", strings.ReplaceAll(which, " ", "-"), fmt.Sprintf("%s: the handler returned but the %s is still held %v later (TryLock fails)\n%s", what, which, rn.wd, allStacks()))
-			return viol, true, 0
-		}
-		time.Sleep(200 * time.Microsecond)
+	if ok, which := x.tryLockWait(rn.lockWait("lock-held", d, r, x)); !ok {
+		add("lock-held", strings.ReplaceAll(which, " ", "-"), fmt.Sprintf("%s: the handler returned but the %s is still held %v later (TryLock fails)\n%s", what, which, rn.wd, allStacks()))
+		return viol, true, 0
 	}
 	// (6) well-formed probe requests are still served
 	for pi, p := range x.probes() {
@@ -349,6 +343,11 @@ func (rn *runner) after2(x instance, d Desc, r *Req, what string, light bool) (v
 			break
 		}
 		pr := &Req{Method: p.Method, URL: p.URL, Header: map[string]string{}}
+		// a probe is itself a request of the alphabet: what it breaks is attributed to it, not to the request before it
+		pd := Desc{Side: d.Side, Method: p.Method, Tmpl: p.Tmpl, ID: "-", Act: "-", Body: "none", CT: "n"}
+		addP := func(oracle, where, detail string) {
+			viol = append(viol, kernel.Violation{Oracle: oracle, Signature: Signature(oracle, pd, pr, where), Detail: detail})
+		}
 		o := serve(x.router(), pr, rn.wd)
 		switch {
 		case o.blocked:
@@ -356,12 +355,16 @@ func (rn *runner) after2(x instance, d Desc, r *Req, what string, light bool) (v
 			add("probe-blocked", where, fmt.Sprintf("%s: afterwards the probe %s %s did not return within %v; handler goroutine (%s):\n%s", what, p.Method, p.URL, rn.wd, wait, g))
 			return viol, true, probesOK
 		case o.panicV != "":
-			add("probe-panic", topJivaFrame(o.stack), fmt.Sprintf("%s: afterwards the probe %s %s panicked: %s\n%s", what, p.Method, p.URL, o.panicV, o.stack))
+			addP("panic", topJivaFrame(o.stack), fmt.Sprintf("probe %s %s (sent after %s) panicked: %s\n%s", p.Method, p.URL, what, o.panicV, o.stack))
 			return viol, true, probesOK
 		case o.status != p.Want:
-			add("probe-status", fmt.Sprintf("%s-%s->%d", p.Method, p.URL, o.status), fmt.Sprintf("%s: afterwards the probe %s %s was answered %d, expected %d: %s", what, p.Method, p.URL, o.status, p.Want, clip(string(o.body), 300)))
+			add("probe-status", fmt.Sprintf("%s-%s->%d", p.Method, p.Tmpl, o.status), fmt.Sprintf("%s: afterwards the probe %s %s was answered %d, expected %d: %s", what, p.Method, p.URL, o.status, p.Want, clip(string(o.body), 300)))
 		default:
 			probesOK++
+		}
+		if ok, which := x.tryLockWait(rn.lockWait("lock-held", pd, pr, x)); !ok {
+			addP("lock-held", strings.ReplaceAll(which, " ", "-"), fmt.Sprintf("probe %s %s (sent after %s): the handler returned but the %s is still held %v later (TryLock fails)\n%s", p.Method, p.URL, what, which, rn.wd, allStacks()))
+			return viol, true, probesOK
 		}
 	}
 	if ok, err := x.readProbe(); ok {
@@ -373,6 +376,23 @@ func (rn *runner) after2(x instance, d Desc, r *Req, what string, light bool) (v
 	}
 	resetLogging() // a setlogging request redirects logrus process-wide
 	return viol, false, probesOK
+}
+
+// lockWait is the generous watchdog, except for a lock-held signature this run has already found (and will confirm
+// with the full watchdog): further occurrences of the same thing are only counted.
+func (rn *runner) lockWait(oracle string, d Desc, r *Req, x instance) time.Duration {
+	if len(rn.u.KnownHeld) == 0 {
+		return rn.wd
+	}
+	if ok, which := x.tryLock(); !ok {
+		sig := Signature(oracle, d, r, strings.ReplaceAll(which, " ", "-"))
+		for _, k := range rn.u.KnownHeld {
+			if k == sig {
+				return time.Second
+			}
+		}
+	}
+	return rn.wd
 }
 
 func clip(s string, n int) string {
@@ -393,7 +413,8 @@ func (rn *runner) exec(x instance, d Desc, r *Req, state string, what string) (o
 	case o.blocked:
 		g, where, wait := handlerGoroutine(o.dump)
 		if o.mem > 0 {
-			add("memory-blowup", where, fmt.Sprintf("%s: the handler had not returned and the process had grown to %d MiB resident (bound %d MiB); its goroutine is in state [%s] at %s:\n%s", what, o.mem>>20, memLimit>>20, wait, where, g))
+			// same oracle as the watchdog (which of the two bounds trips first depends on the machine's speed)
+			add("blocked", where, fmt.Sprintf("%s: the handler had not returned and the process had grown to %d MiB resident (bound %d MiB: unbounded allocation); its goroutine is in state [%s] at %s:\n%s", what, o.mem>>20, memLimit>>20, wait, where, g))
 		} else {
 			add("blocked", where, fmt.Sprintf("%s: the handler did not return within %v; its goroutine is in state [%s] at %s:\n%s", what, rn.wd, wait, where, g))
 		}
@@ -429,15 +450,21 @@ func (rn *runner) exec(x instance, d Desc, r *Req, state string, what string) (o
 }
 
 func (rn *runner) build() error {
+	rn.buildViol = nil
 	x, err := newInst(rn.u.Side, rn.u.Class, rn.u.RealNodes)
 	if err != nil {
 		return fmt.Errorf("building state class %s/%s: %v", rn.u.Side, rn.u.Class, err)
 	}
-	// bring the instance into the canonical "after probes" form
+	// bring the instance into the canonical "after probes" form; the probes are requests like any other: what they
+	// break in a freshly built state class is a violation (reported with the first request of the batch)
 	d0 := Desc{Side: rn.u.Side, Method: "-", Tmpl: "-", ID: "-", Act: "-", Body: "none", CT: "n"}
-	if v, p, _ := rn.after(x, d0, &Req{}, "class build"); len(v) > 0 || p {
+	if v, p, _ := rn.after(x, d0, &Req{}, "building the state class"); len(v) > 0 || p {
 		x.destroy(p)
-		return fmt.Errorf("state class %s/%s does not pass the probes: %+v", rn.u.Side, rn.u.Class, v)
+		if p {
+			ExitAfter = true
+		}
+		rn.buildViol = v
+		return nil
 	}
 	rn.prefReqs = nil
 	for i, ds := range rn.u.Prefix {
@@ -559,6 +586,12 @@ func (rn *runner) one(i int) (poisoned bool, err error) {
 		if err := rn.build(); err != nil {
 			return false, err
 		}
+	}
+	if rn.cur == nil { // the probes failed on the fresh state class
+		res.Viol = rn.buildViol
+		res.Req = &Req{Method: "(probe set on the fresh state class)"}
+		res.Poisoned = true
+		return true, nil
 	}
 	x := rn.cur
 	r, err := Build(d, x.facts())
@@ -705,7 +738,11 @@ func Exec(req *kernel.Request) (resp *kernel.Response) {
 		resp.Err = err.Error()
 		return
 	}
-	resp.Key, resp.KeyText = rn.baseKey, rn.baseText
+	if rn.cur != nil {
+		resp.Key, resp.KeyText = rn.baseKey, rn.baseText
+	} else {
+		resp.Key = "(probes failed)"
+	}
 	rn.journal(journalLine{Base: rn.baseKey})
 	executed := 0
 	for i := range rn.batch {
